@@ -384,6 +384,21 @@ pub fn values(ex: &Ex) -> Vec<RVal> {
             }
         }
     }
+    // lists in which elements repeat in patterns (A,B,A / A,B,B / A,A,B / A,B,C,A): an encoder that
+    // reuses work between neighbouring or equal elements must still write each element's own bytes
+    {
+        let pats: [&[usize]; 5] = [&[0, 1, 0], &[0, 1, 1], &[0, 0, 1], &[0, 1, 2, 0], &[1, 2, 2, 1]];
+        for pat in pats {
+            let sl: Vec<RSignature> = pat.iter().map(|k| sigs[*k].clone()).collect();
+            let rl: Vec<RRecipient> = pat.iter().map(|k| recs[*k].clone()).collect();
+            v.push(RVal::Sign(RSign { protected: prot[0].clone(), unprotected: hdrs[0].clone(), payload: Some(b"p".to_vec()), signatures: sl.clone() }));
+            v.push(RVal::Header(RHeader { counter_signatures: sl.clone(), ..Default::default() }));
+            v.push(RVal::Protected(RProtected { original: None, header: RHeader { counter_signatures: sl, ..Default::default() } }));
+            v.push(RVal::Encrypt(REncrypt { protected: prot[0].clone(), unprotected: hdrs[0].clone(), ciphertext: Some(b"c".to_vec()), recipients: rl.clone() }));
+            v.push(RVal::Mac(RMac { protected: prot[0].clone(), unprotected: hdrs[0].clone(), payload: Some(b"p".to_vec()), tag: vec![1], recipients: rl.clone() }));
+            v.push(RVal::Recipient(RRecipient { protected: prot[0].clone(), unprotected: hdrs[0].clone(), ciphertext: None, recipients: rl }));
+        }
+    }
     // long lists (size thresholds): 17, 65 and 100 signers / recipients / keys / priv-info strings
     for n in [17usize, 65, 100] {
         let many_sigs: Vec<RSignature> = (0..n).map(|k| { let mut s = sigs[k % 3].clone(); s.signature = vec![k as u8]; s }).collect();
